@@ -80,7 +80,7 @@ package bytecode
 //@ pure func sdisp(b []byte, i int, n int) int = ite(n == 1, int(int8(b[i])), ite(n == 2, int(int16(le16at(b, i))), ite(n == 4, int(int32(le32at(b, i))), int(le64at(b, i)))))
 
 //@ func DecodeAddress
-//@   props C03
+//@   props C03 C16
 //@   requires room: (len == 1 || len == 2 || len == 4 || len == 8) ==> len(bytes) >= len
 //@   assigns nothing
 //@   ensures value: result == sdisp(bytes, 0, len)
